@@ -2,7 +2,7 @@
 
 (A) TLC (Arity.tla): for every family and every arity 2..21 the wiring W(fam, n) is what the family promises - the identity
     permutation, a shift by one, a projection, the reversal, a pipeline - with nothing dropped, duplicated or reordered.
-(B) every member of every family found in the repository sources (501 members: TupleN accessors, as.TupleN/HListN/FuncN/
+(B) every member of every family found in the repository sources (703 calls: TupleN accessors, as.TupleN/HListN/FuncN/
     SupplierN/CurriedN/UnTupledN, curried.FuncN/RevertN/FlipN/FlipApplyN/SlipLN/ComposeN, hlist.OfN/CaseN/LiftN/RiftN/ReverseN,
     product.TupleN/TupleFromHListN/FlattenN/LiftN, fp.ComposeN/IdN/ApplyFirstN/ApplyLastN, fn1.MergeN, unit.FuncN and the
     eq/ord/hash/monoid/clone TupleN instances) is called with arguments of pairwise distinct types P1..Pn carrying their
